@@ -11,14 +11,14 @@ References
  [W]  R. M. Wald, General Relativity (1984): (3.2.28) Weyl tensor in n dimensions
       (here n = 4): `C_abcd = R_abcd − (2/(n−2)) (g_{a[c}R_{d]b} − g_{b[c}R_{d]a})
       + (2/((n−1)(n−2))) R g_{a[c}g_{d]b}`.
- [A]  M. Alcubierre, Introduction to 3+1 Numerical Relativity (2008):
-      (8.3.13) `E_ab = n^c n^d C_acbd`, `B_ab = n^c n^d *C_acbd`;
-      (8.3.15) Weyl tensor from E, B, n with `l_ab = g_ab + 2 n_a n_b`;
-      (8.3.16)–(8.3.17) E, B in 3+1 form;
-      (8.6.3)–(8.6.7) Weyl scalars Ψ0..Ψ4 on a null tetrad (l, k, m, m̄);
-      (8.6.1) the null tetrad from an orthonormal one; §8.7 / (8.7.1) invariants I, J.
- [S]  H. Stephani et al., Exact Solutions (2003): (3.58)–(3.60) class I, II, III
-      tetrad rotations and the transformation of the Ψ's; (9.5)–(9.6) I and J.
+ [A]  M. Alcubierre, Introduction to 3+1 Numerical Relativity (2008), §8.3:
+      `E_ab = n^c n^d C_acbd`, `B_ab = n^c n^d *C_acbd`; the Weyl tensor from E, B, n with
+      `l_ab = g_ab + 2 n_a n_b`; E, B in 3+1 form; §8.6 (p. 295) the null tetrad built from an
+      orthonormal one; §8.7 the invariants I, J.
+ [S]  H. Stephani, D. Kramer, M. MacCallum, C. Hoenselaers, E. Herlt, Exact Solutions of
+      Einstein's Field Equations (2nd ed. 2003): (3.59) the Weyl scalars on a null tetrad
+      (m, m̄, l, k), `k·l = −1`, `m·m̄ = 1`; (3.14)–(3.16) class I, II, III rotations and
+      §7.3 their action on Ψ0..Ψ4; (9.5)–(9.6) the invariants I and J.
 -/
 import Mathlib.Algebra.BigOperators.Fin
 import Mathlib.Algebra.Field.Defs
@@ -55,7 +55,7 @@ structure RiemannSym (C : Fin 4 → Fin 4 → Fin 4 → Fin 4 → K) : Prop wher
 
 def Symm {n : Nat} (f : Fin n → Fin n → K) : Prop := ∀ i j, f i j = f j i
 
-/-! ### Weyl tensor from its electric and magnetic parts ([A] (8.3.15))
+/-! ### Weyl tensor from its electric and magnetic parts ([A] §8.3)
 
 `C_abcd = 2 (l_{a[c} E_{d]b} − l_{b[c} E_{d]a} − n_{[c} B_{d]e} ε^e{}_{ab} − n_{[a} B_{b]e} ε^e{}_{cd})`,
 `l_ab = g_ab + 2 n_a n_b`, `ε^e{}_{ab} = g^{ec} n^d ε_{dcab}` -/
@@ -72,13 +72,7 @@ def weylEB (l E B : Fin 4 → Fin 4 → K) (n : Fin 4 → K) (eps : Fin 4 → Fi
     - (∑ e, (n c * B d e - n d * B c e) * eps e a b)
     - (∑ e, (n a * B b e - n b * B a e) * eps e c d)
 
-/-- 4-D extension of a spatial covariant tensor (its contravariant form is purely
-spatial): `f_00 = β^i β^j f_ij`, `f_0k = β^i f_ik`. -/
-def sToSt (β : Fin 3 → K) (f : Fin 3 → Fin 3 → K) : Fin 4 → Fin 4 → K :=
-  fun μ ν => Fin.cases (Fin.cases (∑ i, ∑ j, β i * β j * f i j) (fun k => ∑ i, β i * f i k) ν)
-    (fun i => Fin.cases (∑ k, β k * f k i) (fun j => f i j) ν) μ
-
-/-! ### Electric and magnetic parts in 3+1 form ([A] (8.3.16), (8.3.17))
+/-! ### Electric and magnetic parts in 3+1 form ([A] §8.3)
 
 `E_ij = TF[ R_ij + K K_ij − K_ia K^a{}_j ] − (κ/2) TF[ S_ij ]`,
 `B_ab = ε^{cd}{}_b D_c K_da + ½ ε^{cd}{}_b γ_ac (D_d K − D_e K^e{}_d)` -/
@@ -104,7 +98,7 @@ def bweylN (eps : Fin 3 → Fin 3 → Fin 3 → K) (γ : Fin 3 → Fin 3 → K)
   (∑ c, ∑ d, eps c d b * DK c d a)
     + (1 / 2) * ∑ c, ∑ d, eps c d b * γ a c * (DKtr d - ∑ k, DKm k k d)
 
-/-! ### Electric and magnetic parts seen by an observer `u` ([A] (8.3.13))
+/-! ### Electric and magnetic parts seen by an observer `u` ([A] §8.3)
 
 `E_ac = C_abcd u^b u^d`,  `B_ae = ½ C_abcd ε^{cd}{}_{ef} u^b u^f` -/
 
@@ -121,7 +115,7 @@ def bweylU (C : Fin 4 → Fin 4 → Fin 4 → Fin 4 → K) (u : Fin 4 → K)
 
 end field
 
-/-! ### Newman–Penrose scalars and invariants ([A] (8.6.3)–(8.6.7), (8.7.1); [S] (9.5)) -/
+/-! ### Newman–Penrose scalars and invariants ([S] (3.59), (9.5), (9.6)) -/
 
 section ring
 variable {R : Type} [CommRing R]
@@ -130,73 +124,96 @@ variable {R : Type} [CommRing R]
 def contract4 (C : Fin 4 → Fin 4 → Fin 4 → Fin 4 → R) (p q r s : Fin 4 → R) : R :=
   ∑ a, ∑ b, ∑ c, ∑ d, C a b c d * p a * q b * r c * s d
 
-/-- `g_ab u^a v^b` (bilinear, no conjugation). -/
-def ip (g : Fin 4 → Fin 4 → R) (u v : Fin 4 → R) : R := ∑ a, ∑ b, g a b * u a * v b
+/-- `g_ab u^a v^b` (bilinear, no conjugation), any dimension. -/
+def ip {n : Nat} (g : Fin n → Fin n → R) (u v : Fin n → R) : R := ∑ a, ∑ b, g a b * u a * v b
 
-/-- a null tetrad in aurel's order `(l, k, m, m̄)`: `l` ingoing, `k` outgoing. -/
+/-- a null tetrad named as in [S] and in aurel: `k` outgoing, `l` ingoing (`k·l = −1`), `m`, `m̄`. -/
 structure NullTetrad (R : Type) where
   l : Fin 4 → R
   k : Fin 4 → R
   m : Fin 4 → R
   mb : Fin 4 → R
 
-/-- [A] (8.6.1): `k = (e0 + e1)/√2`, `l = (e0 − e1)/√2`, `m = (e2 + i e3)/√2`, `m̄ = (e2 − i e3)/√2`;
-`s` stands for `1/√2`, `I` for the imaginary unit. -/
-def nullFromOrtho (s I : R) (e0 e1 e2 e3 : Fin 4 → R) : NullTetrad R where
-  k := fun a => (e0 a + e1 a) * s
-  l := fun a => (e0 a - e1 a) * s
-  m := fun a => (e2 a + I * e3 a) * s
-  mb := fun a => (e2 a - I * e3 a) * s
+/-- Minkowski signature `(−,+,+,+)`. -/
+def eta (a b : Fin 4) : R := if a = b then (if a = 0 then -1 else 1) else 0
 
-/-- The five Weyl scalars, contractions as aurel writes them:
-Ψ0 = C(k,m,k,m), Ψ1 = C(l,k,m,k) [= C(k,l,k,m)], Ψ2 = C(k,m,m̄,l), Ψ3 = C(k,l,m̄,l), Ψ4 = C(l,m̄,l,m̄). -/
-def psi (C : Fin 4 → Fin 4 → Fin 4 → Fin 4 → R) (t : NullTetrad R) : Fin 5 → R
-  | 0 => contract4 C t.k t.m t.k t.m
-  | 1 => contract4 C t.l t.k t.m t.k
-  | 2 => contract4 C t.k t.m t.mb t.l
-  | 3 => contract4 C t.k t.l t.mb t.l
-  | 4 => contract4 C t.l t.mb t.l t.mb
+/-- `(e_0..e_3)` is orthonormal for `g`. -/
+def Orthonormal (g : Fin 4 → Fin 4 → R) (E : Fin 4 → Fin 4 → R) : Prop :=
+  ∀ a b, ip g (E a) (E b) = eta a b
 
-/-- `I = Ψ0Ψ4 − 4Ψ1Ψ3 + 3Ψ2²`. -/
-def invI (Ψ : Fin 5 → R) : R := Ψ 0 * Ψ 4 - 4 * Ψ 1 * Ψ 3 + 3 * Ψ 2 * Ψ 2
+/-- the products a complex null tetrad must have: `l·k = −1`, `m·m̄ = 1`, all others 0. -/
+structure IsNullTetrad (g : Fin 4 → Fin 4 → R) (t : NullTetrad R) : Prop where
+  lk : ip g t.l t.k = -1
+  mmb : ip g t.m t.mb = 1
+  ll : ip g t.l t.l = 0
+  kk : ip g t.k t.k = 0
+  mm : ip g t.m t.m = 0
+  mbmb : ip g t.mb t.mb = 0
+  lm : ip g t.l t.m = 0
+  lmb : ip g t.l t.mb = 0
+  km : ip g t.k t.m = 0
+  kmb : ip g t.k t.mb = 0
 
-/-- the matrix whose determinant is `J`. -/
-def Jmat (Ψ : Fin 5 → R) : Fin 3 → Fin 3 → R
-  | 0, 0 => Ψ 4 | 0, 1 => Ψ 3 | 0, 2 => Ψ 2
-  | 1, 0 => Ψ 3 | 1, 1 => Ψ 2 | 1, 2 => Ψ 1
-  | 2, 0 => Ψ 2 | 2, 1 => Ψ 1 | 2, 2 => Ψ 0
+/-- the five Weyl scalars Ψ0..Ψ4. -/
+structure Scalars (R : Type) where
+  p0 : R
+  p1 : R
+  p2 : R
+  p3 : R
+  p4 : R
 
-/-- `J = det [[Ψ4,Ψ3,Ψ2],[Ψ3,Ψ2,Ψ1],[Ψ2,Ψ1,Ψ0]]`, written out
+/-- The five Weyl scalars ([S] (3.59)):
+Ψ0 = C(k,m,k,m), Ψ1 = C(k,l,k,m), Ψ2 = C(k,m,m̄,l), Ψ3 = C(k,l,m̄,l), Ψ4 = C(l,m̄,l,m̄). -/
+def psi (C : Fin 4 → Fin 4 → Fin 4 → Fin 4 → R) (t : NullTetrad R) : Scalars R where
+  p0 := contract4 C t.k t.m t.k t.m
+  p1 := contract4 C t.k t.l t.k t.m
+  p2 := contract4 C t.k t.m t.mb t.l
+  p3 := contract4 C t.k t.l t.mb t.l
+  p4 := contract4 C t.l t.mb t.l t.mb
+
+/-- `I = Ψ0Ψ4 − 4Ψ1Ψ3 + 3Ψ2²`  ([S] (9.5)). -/
+def invI (Ψ : Scalars R) : R := Ψ.p0 * Ψ.p4 - 4 * Ψ.p1 * Ψ.p3 + 3 * Ψ.p2 ^ 2
+
+/-- `J = det [[Ψ4,Ψ3,Ψ2],[Ψ3,Ψ2,Ψ1],[Ψ2,Ψ1,Ψ0]]`  ([S] (9.6)), cofactor expansion along the first row
 (`= Ψ0Ψ2Ψ4 + 2Ψ1Ψ2Ψ3 − Ψ2³ − Ψ0Ψ3² − Ψ1²Ψ4`). -/
-def invJ (Ψ : Fin 5 → R) : R :=
-  Ψ 4 * (Ψ 2 * Ψ 0 - Ψ 1 * Ψ 1) - Ψ 3 * (Ψ 3 * Ψ 0 - Ψ 1 * Ψ 2) + Ψ 2 * (Ψ 3 * Ψ 1 - Ψ 2 * Ψ 2)
+def invJ (Ψ : Scalars R) : R :=
+  Ψ.p4 * (Ψ.p2 * Ψ.p0 - Ψ.p1 * Ψ.p1) - Ψ.p3 * (Ψ.p3 * Ψ.p0 - Ψ.p1 * Ψ.p2)
+    + Ψ.p2 * (Ψ.p3 * Ψ.p1 - Ψ.p2 * Ψ.p2)
 
-/-! Null-tetrad rotations acting on (Ψ0..Ψ4) ([S] (3.58)–(3.60), conventions of
-[A] §8.6: `a` is the complex parameter, `ā` written `ab`). -/
+/-! Null-tetrad rotations acting on (Ψ0..Ψ4) ([S] §7.3; `a` is the complex
+parameter of the rotation, `ā` written `ab`). -/
 
-/-- class I (`l` fixed). -/
-def rotI (ab : R) (Ψ : Fin 5 → R) : Fin 5 → R
-  | 0 => Ψ 0
-  | 1 => Ψ 1 + ab * Ψ 0
-  | 2 => Ψ 2 + 2 * ab * Ψ 1 + ab ^ 2 * Ψ 0
-  | 3 => Ψ 3 + 3 * ab * Ψ 2 + 3 * ab ^ 2 * Ψ 1 + ab ^ 3 * Ψ 0
-  | 4 => Ψ 4 + 4 * ab * Ψ 3 + 6 * ab ^ 2 * Ψ 2 + 4 * ab ^ 3 * Ψ 1 + ab ^ 4 * Ψ 0
+/-- class I (`l` fixed): `Ψ_n → Σ_j C(n,j) ā^j Ψ_{n−j}`. -/
+def rotI (ab : R) (Ψ : Scalars R) : Scalars R where
+  p0 := Ψ.p0
+  p1 := Ψ.p1 + ab * Ψ.p0
+  p2 := Ψ.p2 + 2 * ab * Ψ.p1 + ab ^ 2 * Ψ.p0
+  p3 := Ψ.p3 + 3 * ab * Ψ.p2 + 3 * ab ^ 2 * Ψ.p1 + ab ^ 3 * Ψ.p0
+  p4 := Ψ.p4 + 4 * ab * Ψ.p3 + 6 * ab ^ 2 * Ψ.p2 + 4 * ab ^ 3 * Ψ.p1 + ab ^ 4 * Ψ.p0
 
 /-- class II (`k` fixed): mirrored. -/
-def rotII (b : R) (Ψ : Fin 5 → R) : Fin 5 → R
-  | 0 => Ψ 0 + 4 * b * Ψ 1 + 6 * b ^ 2 * Ψ 2 + 4 * b ^ 3 * Ψ 3 + b ^ 4 * Ψ 4
-  | 1 => Ψ 1 + 3 * b * Ψ 2 + 3 * b ^ 2 * Ψ 3 + b ^ 3 * Ψ 4
-  | 2 => Ψ 2 + 2 * b * Ψ 3 + b ^ 2 * Ψ 4
-  | 3 => Ψ 3 + b * Ψ 4
-  | 4 => Ψ 4
+def rotII (b : R) (Ψ : Scalars R) : Scalars R where
+  p0 := Ψ.p0 + 4 * b * Ψ.p1 + 6 * b ^ 2 * Ψ.p2 + 4 * b ^ 3 * Ψ.p3 + b ^ 4 * Ψ.p4
+  p1 := Ψ.p1 + 3 * b * Ψ.p2 + 3 * b ^ 2 * Ψ.p3 + b ^ 3 * Ψ.p4
+  p2 := Ψ.p2 + 2 * b * Ψ.p3 + b ^ 2 * Ψ.p4
+  p3 := Ψ.p3 + b * Ψ.p4
+  p4 := Ψ.p4
 
 /-- class III (boost `A` and spin `θ`): `Ψ_n → z^{2−n} Ψ_n`, `z = A⁻¹e^{iθ}`, `w = z⁻¹`. -/
-def rotIII (z w : R) (Ψ : Fin 5 → R) : Fin 5 → R
-  | 0 => z ^ 2 * Ψ 0
-  | 1 => z * Ψ 1
-  | 2 => Ψ 2
-  | 3 => w * Ψ 3
-  | 4 => w ^ 2 * Ψ 4
+def rotIII (z w : R) (Ψ : Scalars R) : Scalars R where
+  p0 := z ^ 2 * Ψ.p0
+  p1 := z * Ψ.p1
+  p2 := Ψ.p2
+  p3 := w * Ψ.p3
+  p4 := w ^ 2 * Ψ.p4
+
+/-- exchange of the two real null vectors `k ↔ l` (and `m ↔ m̄`): `Ψ_n ↔ Ψ_{4−n}`. -/
+def swapKL (Ψ : Scalars R) : Scalars R where
+  p0 := Ψ.p4
+  p1 := Ψ.p3
+  p2 := Ψ.p2
+  p3 := Ψ.p1
+  p4 := Ψ.p0
 
 end ring
 
